@@ -87,6 +87,9 @@ func suiteMutate(tier string, seed uint64, model string) *Report {
 		if r.Chance(15) {
 			v = map[string]any{"n": int64(1)}
 		}
+		if r.Chance(12) {
+			v = nil // a null replacement value (on gen data: a nil gen.Node)
+		}
 		c := cs{op: op, one: r.Chance(35), path: genMutPath(r, op), data: d, val: v}
 		if _, isMap := v.(map[string]any); isMap && pathHas(c.path, "D") {
 			// Set of one shared container value under a descent makes the data cyclic and the
